@@ -51,6 +51,10 @@ void coro_restore(Coro *c, const CoroSnapshot *s);
 
 // TSan fiber helpers (no-ops outside the tsan lane).
 void coro_tsan_sync_next_switch(bool sync);
-void *coro_tsan_child_fiber_begin();           // returns previous fiber
-void coro_tsan_child_fiber_end(void *prev);
+void *coro_tsan_child_fiber_begin(Coro *c);    // gives the coroutine a fresh TSan fiber for the fork child phase; returns the previous one
+void coro_tsan_child_fiber_end(Coro *c, void *prev);
+void coro_tsan_pad();                          // pads TSan's shadow call stack (the child phase returns out of frames it never entered)
+void coro_tsan_release(void *addr);            // happens-before edges the plan itself implies (thread start, join)
+void coro_tsan_acquire(void *addr);
+void coro_tsan_ignore(bool on);                // fork child phase: its memory accesses belong to another process
 bool coro_selftest();
